@@ -69,7 +69,13 @@ fn observe(acc: &mut Acc, p: &ValuePointerRef, steps: &[Step], part: &str) {
     if steps.len() == 5 && matches!(steps[0], Step::Index(_)) && matches!(steps[4], Step::Index(_)) {
         acc.sample(|| json!({"path": vcore::render_path(steps), "to_owned": format!("{:?}", p.to_owned()), "first_field": p.first_field(), "last_field": p.last_field(), "is_origin": p.is_origin()}));
     }
-    let fs = judge(p, steps);
+    let fs = match monitor::run::quiet_catch(|| judge(p, steps)) {
+        Ok(fs) => fs,
+        Err(m) => {
+            acc.count("panics");
+            vec![panic_finding("to_owned / is_origin / first_field / last_field", steps, &m)]
+        }
+    };
     report(acc, fs);
 }
 
@@ -92,9 +98,24 @@ fn walk(acc: &mut Acc, p: ValuePointerRef, steps: &mut Vec<Step>, max: usize, co
     }
     for i in INDICES {
         steps.push(Step::Index(i));
-        walk(acc, p.push_index(i), steps, max, counter, shard, n);
+        // a panic of the function under test is an observation (violation with its input), not a harness fault
+        match monitor::run::quiet_catch(|| p.push_index(i)) {
+            Ok(q) => walk(acc, q, steps, max, counter, shard, n),
+            Err(m) => {
+                acc.count("panics");
+                report(acc, vec![panic_finding("push_index", steps, &m)]);
+            }
+        }
         steps.pop();
     }
+}
+
+fn panic_finding(what: &str, steps: &[Step], msg: &str) -> Finding {
+    Finding::new(
+        "C19/panic",
+        "building or reading a location panicked; every sequence of key / index steps is a location",
+        json!({"operation": what, "steps": vcore::render_path(steps), "n_steps": steps.len(), "panic": msg}),
+    )
 }
 
 /// Build the chain for `steps[at..]` on top of `p` and call `f` at the end and at the marked prefixes.
@@ -142,9 +163,11 @@ fn random_steps(rng: &mut Rng) -> Vec<Step> {
             if key {
                 Step::Key(random_key(rng))
             } else {
-                Step::Index(match rng.below(4) {
+                Step::Index(match rng.below(6) {
                     0 => 0,
                     1 => usize::MAX,
+                    4 => isize::MAX as usize + rng.below(2),
+                    5 => 1usize << (8 * (1 + rng.below(7))),
                     _ => rng.below(1000),
                 })
             }
@@ -167,7 +190,7 @@ pub fn run(ctx: &Ctx) -> i32 {
         }
         let mut counter = 0u64;
         walk(&mut acc, ValuePointerRef::Origin, &mut vec![], 6, &mut counter, shard, n);
-        if counter != 55_987 {
+        if counter != 55_987 && acc.counters.get("panics").copied().unwrap_or(0) == 0 {
             acc.inconclusive(format!("the exhaustive walk visited {counter} paths instead of 55987"));
         }
         let mut rng = Rng::derive(ctx.seed, 0xC19, shard as u64);
@@ -177,11 +200,17 @@ pub fn run(ctx: &Ctx) -> i32 {
             let extra = if steps.is_empty() { 0 } else { rng.below(steps.len()) };
             let total = steps.len();
             acc.add("steps_pushed", total as u64);
-            build(ValuePointerRef::Origin, &steps, 0, &mut |p, at| {
-                if at == total || at == extra {
-                    observe(&mut acc, p, &steps[..at], "random");
-                }
+            let built = monitor::run::quiet_catch(|| {
+                build(ValuePointerRef::Origin, &steps, 0, &mut |p, at| {
+                    if at == total || at == extra {
+                        observe(&mut acc, p, &steps[..at], "random");
+                    }
+                })
             });
+            if let Err(m) = built {
+                acc.count("panics");
+                report(&mut acc, vec![panic_finding("push_key / push_index chain", &steps, &m)]);
+            }
         }
         acc
     });
